@@ -1083,7 +1083,15 @@ class IMAPSubprocessInterface:
             while True:
                 if self.reader.at_eof():
                     break
-                msg = await self.reader.readuntil(b"\r\n")
+                try:
+                    msg = await self.reader.readuntil(b"\r\n")
+                except asyncio.LimitOverrunError as exc:
+                    # More data than the stream reader buffers without a
+                    # line terminator in it (a very long line inside of a
+                    # message that is being fetched.) We only relay the data,
+                    # so pass on what is there and carry on.
+                    #
+                    msg = await self.reader.read(exc.consumed)
                 await self.imap_client.push(msg)
         except (OSError, asyncio.IncompleteReadError, ConnectionResetError):
             pass
